@@ -334,6 +334,9 @@ def case_strategy(draw, tier):
         'check_order': draw(option(ref_names)),
         'check_extra_cols': draw(option(act_names)),
         'sortby': (['k'] if use_key and draw(st.booleans()) else None),
+        # the keys given as a function of the frame ("its first column"):
+        # the REFERENCE frame's, where k comes first
+        'sortby_form': draw(st.sampled_from(['list', 'list', 'func-first'])),
         # a condition on values (k >= c), or one on position: "the first m
         # rows" - of the frames as sorted, when a sort is asked for
         'condition': (draw(st.integers(0, 50))
@@ -479,9 +482,73 @@ def run_csv(case, ctx):
     return out
 
 
+def wide_case():
+    """Frames of several hundred integer columns in which one row differs
+    in a given number of columns (counts of differences per row, per
+    column and in total are all computed by the comparison)."""
+    return st.fixed_dictionaries({
+        'ncols': st.sampled_from([257, 300, 513, 600]),
+        'ndiff': st.sampled_from([0, 1, 255, 256, 256, 256, 257, 512, 512]),
+        'rows': st.sampled_from([1, 2, 3]),
+        'entry': st.sampled_from(['check_dataframe',
+                                  'assertDataFramesEqual']),
+    }).map(lambda w: {'wide': dict(w, ndiff=min(w['ndiff'], w['ncols']))})
+
+
+def valid_wide(w):
+    return (isinstance(w, dict) and isinstance(w.get('ncols'), int)
+            and 1 <= w['ncols'] <= 700 and isinstance(w.get('ndiff'), int)
+            and 0 <= w['ndiff'] <= w['ncols'] and w.get('rows') in (1, 2, 3)
+            and w.get('entry') in ('check_dataframe',
+                                   'assertDataFramesEqual'))
+
+
+def run_wide(case, ctx):
+    import numpy as np
+    import pandas as pd
+    from tdda.referencetest.checkpandas import PandasComparison
+    from tdda.referencetest.referencetest import ReferenceTest
+    w = case['wide']
+    out = Outcome()
+    ref = pd.DataFrame({'c%03d' % j: np.arange(w['rows'], dtype='int64') + j
+                        for j in range(w['ncols'])})
+    act = ref.copy()
+    for j in range(w['ndiff']):
+        act.iloc[w['rows'] - 1, (j * 7) % w['ncols'] if w['ndiff'] * 7 <
+                 w['ncols'] else j] += 1
+    ndiff = int((act != ref).to_numpy().sum())
+    expect = ndiff == 0
+    out.label('wide-frame', 'entry:' + w['entry'],
+              'expect:' + ('pass' if expect else 'fail:data'))
+    out.nontrivial = not expect
+    d = ctx.fresh_dir()
+    rec = Recorder()
+    rt = ReferenceTest(rec)
+    rt.pandas.tmp_dir = d
+    rt.pandas.verbose = False
+    if w['entry'] == 'check_dataframe':
+        pc = PandasComparison(print_fn=None, verbose=False, tmp_dir=d)
+        ok, r = quiet(pc.check_dataframe, act, ref)
+        got = ok and r.failures == 0
+    else:
+        ok, r = quiet(rt.assertDataFramesEqual, act, ref)
+        got = not rec.failed
+    if not ok:
+        out.violate('failure-is-an-assertion-not-an-internal-error',
+                    r.bucket(), 'wide frames: ' + r.detail())
+    elif got != expect:
+        out.violate('verdict', 'wide:%s' % ('should-pass' if expect
+                                            else 'should-fail:data'),
+                    '%s %s for frames of %d columns whose last row differs '
+                    'in %d of them' % (w['entry'], 'passed' if got
+                                       else 'failed', w['ncols'], ndiff))
+    return out
+
+
 def strategy(tier):
-    return st.integers(0, 9).flatmap(
-        lambda k: csv_case() if k == 0 else case_strategy(tier))
+    return st.integers(0, 59).flatmap(
+        lambda k: csv_case() if k < 6 else wide_case() if k < 9
+        else case_strategy(tier))
 
 
 def valid_desc(d):
@@ -547,6 +614,8 @@ def valid_desc(d):
 
 
 def valid(case):
+    if 'wide' in case:
+        return valid_wide(case['wide'])
     if 'csv' in case:
         return valid_csv(case['csv'])
     if not (valid_desc(case.get('ref', {})) and valid_desc(
@@ -569,6 +638,11 @@ def valid(case):
         if any(c not in ref_names for c in o[k]['cols']):
             return False
     if any(c not in act_names for c in o['check_extra_cols']['cols']):
+        return False
+    if o.get('sortby_form', 'list') not in ('list', 'func-first'):
+        return False
+    if o.get('sortby_form') == 'func-first' and o.get('sortby') and (
+            ref_names[:1] != ['k']):
         return False
     if o.get('sortby') not in (None, ['k']) or (
             o.get('sortby') and 'k' not in ref_names):
@@ -864,6 +938,8 @@ def quiet(fn, *a, **kw):
 
 
 def run(case, ctx):
+    if 'wide' in case:
+        return run_wide(case, ctx)
     if 'csv' in case:
         return run_csv(case, ctx)
     import pandas as pd
@@ -945,6 +1021,9 @@ def run(case, ctx):
               precision=o['precision'], type_matching=o['type_matching'])
     if entry != 'check_dataframe':
         kw.pop('check_extra_cols')
+    if o['sortby'] and o.get('sortby_form') == 'func-first':
+        kw['sortby'] = lambda frame: list(frame)[:1]
+        out.label('sortby-as-function')
     rec = Recorder()
     rt = ReferenceTest(rec)
     rt.pandas.tmp_dir = os.path.join(d, 'tmp')
